@@ -232,7 +232,15 @@ fn block_of(h: u64) -> BlockInfo {
         _ => format!("chain-{}", h),
     };
     let time = if h % 7 == 0 { Timestamp::from_nanos(0) } else { Timestamp::from_seconds(1_000_000 + h) };
-    BlockInfo { height: if h % 11 == 0 { 0 } else { h }, time, chain_id }
+    // heights: 0, small, 2^63 - 1, 2^63, u64::MAX
+    let height = match h % 17 {
+        0 | 11 => 0,
+        1 => i64::MAX as u64,
+        2 => i64::MAX as u64 + 1,
+        3 => u64::MAX,
+        _ => h,
+    };
+    BlockInfo { height, time, chain_id }
 }
 
 fn apply_bstep(b: DefaultBuilder, s: &BStep) -> DefaultBuilder {
